@@ -46,6 +46,11 @@ def rot_angle(node):
         return strip(n[2][2])
     if n[0] == "call" and short_callee(n[1]) == "from_axis_angle" and len(n[2]) == 2 and "z_axis" in show(n[2][0]):
         return strip(n[2][1])
+    # `rot.inverse()` / `rot.transpose()` of a rotation about Z: the rotation by the opposite angle
+    if n[0] == "call" and short_callee(n[1]) in ("inverse", "transpose") and len(n[2]) == 1:
+        a = rot_angle(n[2][0])
+        if a is not None:
+            return ("un", "Neg", a)
     return None
 
 
